@@ -216,7 +216,16 @@ def while_progress(ctx, rule, fi, bounds, cm):
     """Every while loop of fi: bound-compared variable strictly increases on
     every path to the back edge."""
     prog = ctx.prog
-    it = Interp(prog, exc_edges=True)
+    # a helper that searches a position in a loop and returns it (a bracket
+    # matcher lifted out of the function) is used through its summary
+    # `returns_at_least_param`, not inlined: its loop would hide the result
+    searchers = {f.qualname for f in fi.module.funcs.values()
+                 if any(isinstance(n, (ast.While, ast.For))
+                        for n in ast.walk(f.node)) and
+                 any(isinstance(n, ast.Return) and
+                     isinstance(n.value, ast.Name)
+                     for n in ast.walk(f.node)) and f is not fi}
+    it = Interp(prog, exc_edges=True, no_inline=searchers)
     args = {'lendian': C(True)} if 'lendian' in fi.params() else {}
     paths = it.run(fi, args)
     seen = set()
@@ -274,13 +283,19 @@ def while_progress(ctx, rule, fi, bounds, cm):
                         call = others[0][0]
                         callee = prog.all_funcs.get(call[1] or '')
                         if callee is not None and call[3]:
-                            pn = callee.params()[0]
-                            a0 = aff(('binop', '-', call[3][0], lv),
-                                     bp.state.falsy)
-                            if returns_at_least_param(prog, callee, pn) and \
-                                    set(a0) <= {1} and \
-                                    a0.get(1, 0) + const >= 1:
-                                ok = True
+                            # the position the helper starts from is one of
+                            # its parameters (the first one of a closure; a
+                            # later one when the helper was lifted out and
+                            # gets what it captured passed in)
+                            for pn, arg in zip(callee.params(), call[3]):
+                                a0 = aff(('binop', '-', arg, lv),
+                                         bp.state.falsy)
+                                if set(a0) <= {1} and \
+                                        a0.get(1, 0) + const >= 1 and \
+                                        returns_at_least_param(prog, callee,
+                                                               pn):
+                                    ok = True
+                                    break
                         why = 'new value %s' % R.affine_str(ea)
                     else:
                         why = 'new value %s is not an increment' % (
